@@ -45,6 +45,17 @@ namespace occa {
           && hasValidUpdate()
         );
 
+        if (valid
+            && updateValue
+            && updateValue->canEvaluate()
+            && !((bool) updateValue->evaluate())) {
+          // The iteration count divides by the step
+          valid = false;
+          if (printErrors) {
+            updateOp->printError(sourceStr() + "OKL for loop step cannot be zero");
+          }
+        }
+
         if(valid) {
           exprNode* loop_range_node = getIterationCount();
           if (loop_range_node->canEvaluate()) {
